@@ -74,10 +74,12 @@ KINDS = {
     "defkw": "ALTER TABLE {T} ADD CONSTRAINT d6 DEFAULT CURRENT_TIMESTAMP FOR c;",
     "defcall": "ALTER TABLE {T} ADD CONSTRAINT d7 DEFAULT getdate() FOR c;",
     "defpar": "ALTER TABLE {T} ADD CONSTRAINT d8 DEFAULT ((0)) FOR a;",
+    # an added column that carries NOT NULL: inside an ALTER the word NULL is not lexed as the keyword (known finding)
+    "addnn": "ALTER TABLE {T} ADD d int NOT NULL;",
     "fknc": "ALTER TABLE {T} ADD FOREIGN KEY (a, c) REFERENCES s9.o;",
     "fk2w": "ALTER TABLE {T} ADD CONSTRAINT fk3 FOREIGN KEY (c) REFERENCES s9.o (y) ON DELETE SET NULL;",
 }
-KF_KINDS = {"fk2w", "defcall", "defpar"}  # kinds with an open known finding: enumerated at depth 1 only (they would mask their partners)
+KF_KINDS = {"fk2w", "defcall", "defpar", "addnn"}  # kinds with an open known finding: enumerated at depth 1 only (they would mask their partners)
 MODES = ["sql", "bigquery"]
 OTHER_MODES = ["redshift", "spark_sql", "mysql", "mssql", "databricks", "sqlite", "vertics", "ibm_db2", "postgres", "oracle", "hql", "snowflake", "athena"]
 D3Q_KINDS = ["add", "ifex", "dropd", "rend", "drop", "rename", "fk1", "modcol", "fkbb", "fkd", "modtxt", "defb"]
@@ -187,8 +189,8 @@ def apply(m, op):
     names = [nm(c[0]) for c in cols]
     A = m["alter"]
     b = spell("b", hc)
-    if k in ("add", "ifex"):
-        new = "d" if k == "add" else "e"
+    if k in ("add", "ifex", "addnn"):
+        new = "e" if k == "ifex" else "d"
         if new not in names:
             cols.append([new, None, None, False])
     elif k in ("drop", "dropd"):
@@ -300,6 +302,8 @@ def features(case):
             f.append("alter-fk-action:two-word")
         if op[0] in ("defcall", "defpar"):
             f.append("alter-default:call-or-parenthesised-value")
+        if op[0] == "addnn":
+            f.append("alter-add:not-null")
     return sorted(set(f))
 
 
